@@ -19,7 +19,7 @@ Definition show_question (r : question * nat) : string :=
   sp (tok_of_bytes (q_name q)) (sp (dec_of_N (q_type q)) (sp (dec_of_N (q_class q)) (dec_of_nat (snd r)))).
 
 Definition is_err {A} (r : res A) : bool := match r with Err _ => true | _ => false end.
-Definition LAX : nat := 4000.
+Definition LAX : nat := NAME_LIMIT.   (* since the total-length check the code's limit is the RFC's: no lenient zone left *)
 Definition REJECT : string := "err:reject".
 (* the spec demands "an error": any error class of the implementation satisfies it *)
 Definition reject_as (model_is_err : bool) (model_obs : string) : string :=
@@ -36,7 +36,7 @@ Definition spec_dq (p : bytes) (index : Z) (mobs : string) (merr : bool) : strin
         match ref_decode p off with
         | None => reject_as merr mobs
         | Some (ls, n) =>
-            if Nat.ltb NAME_LIMIT (wire_len ls) then mobs            (* over-long name: property silent *)
+            if negb (name_ok NAME_LIMIT ls) then reject_as merr mobs   (* over 255 octets, or a '.' inside a label *)
             else if Nat.ltb 254 (ref_depth (S (List.length p)) p off) then mobs   (* beyond the recursion bound *)
             else match u16_at p n, u16_at p (n + 2) with
                  | Some t, Some c => show_question (mkQ (dotted ls) t c, (n + 4)%nat)
@@ -136,7 +136,6 @@ Definition run_rrs (p spare : bytes) (off : Z) (pre : bytes) (n : nat) : string 
     if Nat.ltb (List.length p) 12 then mobs
     else if (off <? 0)%Z then mobs   (* negative offset: API misuse, unconstrained *)
     else if negb (String.eqb (show_ref_answers strict) (show_ref_answers lax)) then mobs
-    else if match lax with Some (rrs, _, _) => ptr_dot_owner rrs | None => false end then mobs
     else match strict with
          | None => reject_as (is_err (fst r)) mobs
          | Some (_, ls, e) =>
@@ -183,7 +182,7 @@ Definition pdns_step (t : dns_table) (st : list named) (p spare : bytes)
   let mobs := show_ret r in
   let strict := ref_message NAME_LIMIT p in
   let lax := ref_message LAX p in
-  let unconstrained := negb (String.eqb (show_ref_msg strict) (show_ref_msg lax)) || msg_ptr_dot p in
+  let unconstrained := negb (String.eqb (show_ref_msg strict) (show_ref_msg lax)) in
   let '(sobs, st') :=
     if unconstrained then (mobs, ctable_of t')
     else match strict with
